@@ -544,6 +544,42 @@ func (e *Env) index(base, idx *Val) *Val {
 	return e.errorf("index of %s", base.Ty)
 }
 
+// guardTrigger: for a quantified clause of the form imp(A, B) where A mentions
+// the bound variable, A is a natural E-matching trigger (the guard is what the
+// prover has in hand when it needs the fact).
+func (e *Env) guardTrigger(ne *Env, body ast.Expr, bv string) string {
+	c, ok := body.(*ast.CallExpr)
+	if !ok || len(c.Args) != 2 {
+		return ""
+	}
+	id, ok := c.Fun.(*ast.Ident)
+	if !ok || id.Name != "imp" {
+		return ""
+	}
+	n := len(*ne.errs)
+	lines := len(ne.fx.lines)
+	g := ne.eval(c.Args[0])
+	if len(*ne.errs) > n {
+		*ne.errs = (*ne.errs)[:n]
+		return ""
+	}
+	_ = lines
+	t := g.T
+	// a conjunction: take the first conjunct mentioning the variable
+	if strings.HasPrefix(t, "(and ") {
+		for _, part := range flattenAnd(t) {
+			if strings.Contains(part, bv) && strings.HasPrefix(part, "(") && !strings.HasPrefix(part, "(not ") && !strings.HasPrefix(part, "(=") {
+				t = part
+				break
+			}
+		}
+	}
+	if !strings.Contains(t, bv) || !strings.HasPrefix(t, "(select ") {
+		return ""
+	}
+	return t
+}
+
 func (e *Env) quant(q string, args []ast.Expr) *Val {
 	if len(args) != 4 {
 		return e.errorf("%s(i, lo, hi, body)", q)
@@ -630,7 +666,49 @@ func (e *Env) call(x *ast.CallExpr) *Val {
 			ne.bound[k] = true
 		}
 		body := ne.eval(x.Args[1])
+		if trig := e.guardTrigger(ne, x.Args[1], bv); trig != "" {
+			return &Val{T: "(forall ((" + bv + " If)) (! " + body.T + " :pattern (" + trig + ")))", Ty: boolT}
+		}
 		return &Val{T: "(forall ((" + bv + " If)) " + body.T + ")", Ty: boolT}
+	case "allif2":
+		// allif2(k, j, imp(guard, body)): one two-variable quantifier whose trigger is the pair of membership guards
+		id1 := x.Args[0].(*ast.Ident)
+		id2 := x.Args[1].(*ast.Ident)
+		fx.qn++
+		bv1 := fmt.Sprintf("%s!%d", id1.Name, fx.qn)
+		fx.qn++
+		bv2 := fmt.Sprintf("%s!%d", id2.Name, fx.qn)
+		ift := types.NewInterfaceType(nil, nil)
+		ne := e.bind(id1.Name, &Val{T: bv1, Ty: ift}).bind(id2.Name, &Val{T: bv2, Ty: ift})
+		ne.bound = map[string]bool{id1.Name: true, id2.Name: true}
+		for k := range e.bound {
+			ne.bound[k] = true
+		}
+		body := ne.eval(x.Args[2])
+		pat := ""
+		if c, ok := x.Args[2].(*ast.CallExpr); ok && len(c.Args) == 2 {
+			if g := ne.eval(c.Args[0]); strings.HasPrefix(g.T, "(and ") {
+				var p1, p2 string
+				for _, part := range flattenAnd(g.T) {
+					if !strings.HasPrefix(part, "(select ") {
+						continue
+					}
+					if p1 == "" && strings.Contains(part, bv1) && !strings.Contains(part, bv2) {
+						p1 = part
+					}
+					if p2 == "" && strings.Contains(part, bv2) && !strings.Contains(part, bv1) {
+						p2 = part
+					}
+				}
+				if p1 != "" && p2 != "" {
+					pat = " :pattern (" + p1 + " " + p2 + ")"
+				}
+			}
+		}
+		if pat != "" {
+			return &Val{T: "(forall ((" + bv1 + " If) (" + bv2 + " If)) (! " + body.T + pat + "))", Ty: boolT}
+		}
+		return &Val{T: "(forall ((" + bv1 + " If) (" + bv2 + " If)) " + body.T + ")", Ty: boolT}
 	case "unchanged":
 		if e.old == nil {
 			return e.errorf("unchanged() needs a pre-state")
@@ -649,6 +727,9 @@ func (e *Env) call(x *ast.CallExpr) *Val {
 		q := "forall"
 		if name == "exstr" {
 			q = "exists"
+		}
+		if trig := e.guardTrigger(ne, x.Args[1], bv); trig != "" && q == "forall" {
+			return &Val{T: "(forall ((" + bv + " " + fx.u.strSort() + ")) (! " + body.T + " :pattern (" + trig + ")))", Ty: boolT}
 		}
 		return &Val{T: "(" + q + " ((" + bv + " " + fx.u.strSort() + ")) " + body.T + ")", Ty: boolT}
 	case "old":
@@ -1084,4 +1165,16 @@ func (e *Env) ghostElemType(arrTerm string) types.Type {
 		return strT
 	}
 	return nil
+}
+
+// flattenAnd returns the conjuncts of a (possibly nested) conjunction.
+func flattenAnd(t string) []string {
+	if !strings.HasPrefix(t, "(and ") {
+		return []string{t}
+	}
+	var out []string
+	for _, p := range splitSexps(t[5 : len(t)-1]) {
+		out = append(out, flattenAnd(p)...)
+	}
+	return out
 }
